@@ -187,8 +187,8 @@ func PropC07(c *vs.Case, f Factory, o RolloutOpts) error {
 	if sawTwoRevs {
 		c.NonTrivial()
 	}
-	if len(env.CacheViolations) > 0 {
-		return vs.Violf("C17/cache-mutated", "shared cache objects changed during a sync: %v", env.CacheViolations)
+	if v := env.SharedStateViolation(); v != nil {
+		return v
 	}
 	return nil
 }
@@ -362,8 +362,8 @@ func PropC08(c *vs.Case, f Factory, o RolloutOpts) error {
 	if owned != 1 {
 		return withTrace(vs.Violf("C08/revisions-not-pruned", "%d ControllerRevisions remain after the rollout completed, want exactly the latest", owned), last)
 	}
-	if len(env.CacheViolations) > 0 {
-		return vs.Violf("C17/cache-mutated", "shared cache objects changed during a sync: %v", env.CacheViolations)
+	if v := env.SharedStateViolation(); v != nil {
+		return v
 	}
 	return nil
 }
